@@ -827,6 +827,49 @@ class Gen:
         if subs_list:
             self.ops.append({"k": "ephemeral", "t": i, "subs": subs_list})
 
+    def g_guarded(self):
+        """A partial column function behind a guard: either two adjacent selections (guard, then use) which the
+        library merges, a single conjunction / disjunction in guard-first order, or a guarded calculation."""
+        r = self.rng
+        i = self.pick(lambda s: s.eng != "sql" and (s.cols & set(KEY_TAGS)))
+        if i is None:
+            return
+        sh = self.pool[i]
+        c = r.choice(sorted(sh.cols & set(KEY_TAGS)))
+        guard = ["cmp", "ne", ["ref", c], ["lit", 0]]
+        use = ["cmp", r.choice(["gt", "lt", "ge"]), ["udf", "pdiv", ["ref", c]], ["lit", r.choice([-3, 1, 2])]]
+        if r.random() < 0.5:
+            use = ["cmp", use[1], use[3], use[2]]          # literal on the left: another textual / structural order
+        if r.random() < 0.3:
+            guard = ["not", ["cmp", "eq", ["ref", c], ["lit", 0]]]
+        form = r.choice(["two", "two", "and", "or", "calc"])
+        if form == "two":
+            self.ops.append({"k": "sel", "t": i, "p": guard})
+            self.pool.append(sh.copy())
+            self.ops.append({"k": "sel", "t": len(self.pool) - 1, "p": use})
+            self.pool.append(sh.copy())
+        elif form == "and":
+            self.ops.append({"k": "sel", "t": i, "p": ["and", guard, use]})
+            self.pool.append(sh.copy())
+        elif form == "or":
+            self.ops.append({"k": "sel", "t": i, "p": ["or", ["cmp", "eq", ["ref", c], ["lit", 0]], use]})
+            self.pool.append(sh.copy())
+        else:
+            free = [t for t in ["x", "y", "z", "w"] if t not in sh.cols]
+            if not free:
+                return
+            self.ops.append({"k": "sel", "t": i, "p": guard})
+            self.pool.append(sh.copy())
+            self.ops.append({"k": "calc", "t": len(self.pool) - 1, "tag": free[0], "e": ["udf", "pdiv", ["ref", c]]})
+            self.pool.append(sh.copy(cols=sh.cols | {free[0]}))
+        if r.random() < 0.5:
+            # a third selection on top (merges again)
+            self.force_last = True
+            try:
+                self.g_sel()
+            finally:
+                self.force_last = False
+
     def g_xfer(self):
         i = self.pick()
         if i is None:
